@@ -292,12 +292,27 @@ fn main() {
         }
         std::process::exit(0);
     }
-    if std::env::var("C06_REPRO").is_ok() {
-        // stand-alone reproduction of the known finding: the command handler is `context.fail(..)`
+    if std::env::var("C06_REPRO").as_deref() == Ok("1") {
+        // stand-alone reproduction of the first known finding: the command handler is `context.fail(..)`
         let mut p = Program::empty();
         p.slots[ROOT] = Some(H::Seq(Box::new(H::SetV(X::Lit(7))), Box::new(H::Seq(Box::new(H::Fail), Box::new(H::Eff(1))))));
         let rec = run_one::<AsWorld>(&cfg_for(&p, 2), &[], true).unwrap();
         println!("program: {}  script: two commands to lane c", p);
+        for l in &rec.outcome.log {
+            println!("{}", l);
+        }
+        println!("oracle: {:?}", rec.outcome.violations.iter().map(|v| &v.0).collect::<Vec<_>>());
+        std::process::exit(0);
+    }
+    if std::env::var("C06_REPRO").as_deref() == Ok("2") {
+        // stand-alone reproduction of the second known finding: a handler removes an absent key
+        // from map lane m; afterwards the lane never emits an event again
+        let mut p = Program::empty();
+        p.slots[ROOT] = Some(H::Rem(2));
+        let mut c = cfg_for(&p, 1);
+        c.script = vec![(0usize, link("m")), (0, cmd("c", "go")), (0, cmd("m", "@update(key:1) 7"))];
+        let rec = run_one::<AsWorld>(&c, &[], true).unwrap();
+        println!("program: {}  script: {:?}", p, c.script);
         for l in &rec.outcome.log {
             println!("{}", l);
         }
@@ -343,8 +358,10 @@ fn main() {
     let all = [(false, 64usize), (true, 64), (true, 2)];
     if quick {
         run_grid(&ctx, GridSpec { name: "e1-schedules-d1".into(), cfgs: e1_cfgs(&progs, &all), bound: 1, max_exec_per_cfg: 50_000, wall_cap_s: 12.0 });
-        let core: Vec<Program> = progs.iter().take(30).chain(progs.iter().skip(127)).cloned().collect();
-        run_grid(&ctx, GridSpec { name: "e1-schedules-d2".into(), cfgs: e1_cfgs(&core, &[(true, 64)]), bound: 2, max_exec_per_cfg: 50_000, wall_cap_s: 10.0 });
+        // core sub-grid: a few of the smallest, the programs that suspend a handler (the order of the suspended
+        // cascade relative to the next command is up to the schedule) and the deepest cascades
+        let core: Vec<Program> = progs.iter().take(4).chain(progs.iter().take(127).filter(|p| p.contains(&|h| matches!(h, H::Suspend(..)))).take(12)).chain(progs.iter().skip(127).take(12)).cloned().collect();
+        run_grid(&ctx, GridSpec { name: "e1-schedules-d2".into(), cfgs: e1_cfgs(&core, &[(true, 64)]), bound: 2, max_exec_per_cfg: 50_000, wall_cap_s: 14.0 });
     } else {
         run_grid(&ctx, GridSpec { name: "e1-schedules-d2".into(), cfgs: e1_cfgs(&progs, &all), bound: 2, max_exec_per_cfg: 50_000, wall_cap_s: 200.0 });
     }
